@@ -75,6 +75,7 @@ def main():
         # demo
         demos = notes.get("demo_file")
         demo_files = demos if isinstance(demos, list) else [demos]
+        demo_files = [d.split()[0].rstrip(",;") for d in demo_files if d]  # drop trailing remarks
         demo_pkgs = set()
         for d in demo_files:
             if not d:
@@ -86,6 +87,13 @@ def main():
             os.makedirs(os.path.dirname(os.path.join(wt, d)) or wt, exist_ok=True)
             shutil.copyfile(srcf, os.path.join(wt, d))
             demo_pkgs.add("./" + (os.path.dirname(d) or "."))
+        tree = os.path.join(dst, "_tree")
+        if os.path.isdir(tree):
+            for fn in glob.glob(os.path.join(tree, "**"), recursive=True):
+                if os.path.isfile(fn):
+                    rel = os.path.relpath(fn, tree)
+                    os.makedirs(os.path.dirname(os.path.join(wt, rel)) or wt, exist_ok=True)
+                    shutil.copyfile(fn, os.path.join(wt, rel))
         # any *_test.go in the seed that is not placed yet goes to the root
         for fn in glob.glob(os.path.join(dst, "*_test.go")):
             if not os.path.exists(os.path.join(wt, os.path.basename(fn))) and not any(os.path.basename(fn) == os.path.basename(d or "") for d in demo_files):
@@ -108,7 +116,29 @@ def main():
         shutil.rmtree(wt, ignore_errors=True)
     # --- run the checks against it
     meta["checks"] = {}
-    if checks:
+    if checks and os.environ.get("SEED_SCRATCH"):
+        # evaluate against a scratch worktree (other checks may be running against /repo itself)
+        wt2 = f"/tmp/seedcheck/{name}-run"
+        shutil.rmtree(wt2, ignore_errors=True)
+        subprocess.run(["git", "-C", "/repo", "worktree", "prune"])
+        rc, out, _ = run(["git", "-C", "/repo", "worktree", "add", "-q", "--detach", wt2, "HEAD"], "/")
+        assert rc == 0, out
+        rc, out, _ = run(["git", "apply", patch], wt2)
+        assert rc == 0, out
+        ENV["VERIF_REPO_OVERRIDE"] = wt2
+        try:
+            for c in checks:
+                rc, out, took = run(["python3", "run.py", c, tier], "/verif", timeout=3600)
+                lines = [l for l in out.splitlines() if l.startswith("VIOLATION") or "violation" in l.lower() or l.startswith(c)]
+                meta["checks"][c] = {"tier": tier, "exit": rc, "seconds": round(took, 1), "detected": rc == 1, "lines": [l[:400] for l in lines[:4]], "against": "scratch worktree with the patch applied"}
+                print(f"  {c} {tier}: exit {rc} in {took:.0f}s {'DETECTED' if rc == 1 else 'missed' if rc == 0 else 'INFRA'}")
+                for l in lines[:2]:
+                    print("     ", l[:300])
+        finally:
+            ENV.pop("VERIF_REPO_OVERRIDE", None)
+            subprocess.run(["git", "-C", "/repo", "worktree", "remove", "--force", wt2])
+            shutil.rmtree(wt2, ignore_errors=True)
+    elif checks:
         st = subprocess.run(["git", "-C", "/repo", "status", "--short"], stdout=subprocess.PIPE, text=True).stdout.strip()
         assert st == "", "/repo not clean: " + st
         rc, out, _ = run(["git", "-C", "/repo", "apply", patch], "/")
